@@ -47,9 +47,9 @@ def sh(cmd, cwd=None, env=None, timeout=None, out=None):
     return p.returncode, p.stdout
 
 
-def build():
+def build(profile='release'):
     """Rebuild the harness; the path dependency makes cargo rebuild the library from /repo's working tree."""
-    cmd = ['cargo', 'build', '--release', '--offline']
+    cmd = ['cargo', 'build', '--offline'] + (['--release'] if profile == 'release' else ['--profile', profile])
     if ALT_REPO and ISO:
         cmd += ['--config', 'paths=["%s"]' % ALT_REPO, '--target-dir', '/tmp/seedtarget/' + ISO]
     rc, out = sh(cmd, cwd=HARNESS, timeout=1200)
